@@ -2,6 +2,7 @@
 
 PROPS = {
     "C07": {
+        "technique": "static analysis (rustc_private MIR facts + casslint rules): bounded path enumeration with symbolic hashes over the apply body (mapping/refcount balance) + structural check of the two refcount primitives + must-pass-through of the delete callback + error discipline of the unlink; lockset rules shared with C04",
         "level": "other",
         "explanation": "bounded path enumeration of the apply body with symbolic hashes (loops unrolled once/twice): on "
                        "every Ok path the change in key->hash mappings equals the change applied to the refcounts and a "
@@ -10,6 +11,7 @@ PROPS = {
         "not_decided": "the directory listing at run time",
     },
     "C12": {
+        "technique": "static analysis (rustc_private MIR facts + casslint rules): who-may-write confinement of the counters by module + path-enumerated balance of statistics against refcount outcomes + structural check of the recomputation (distinctness by hash) + provenance of the stored size",
         "level": "other",
         "explanation": "counter confinement by module, path-enumerated balance of the statistics counters against the "
                        "refcount outcomes (distinct blobs, bytes with the size belonging to the same hash), rebuild on "
@@ -17,6 +19,7 @@ PROPS = {
         "not_decided": "numeric equality over histories",
     },
     "C18": {
+        "technique": "static analysis (rustc_private MIR facts + casslint rules): provenance slicing: one datum to counter/hasher/file per write, one finalize() feeding intent and publish along the call chain, purity and tiling of the hash<->path mapping",
         "level": "other",
         "explanation": "one datum / one hash / one path decided by provenance: the write method feeds its data "
                        "parameter once each to counter, hasher and file on every Ok path; the hash registered and the "
@@ -25,6 +28,7 @@ PROPS = {
         "not_decided": "BLAKE3 and hex themselves; the for-all-hashes bijection beyond tiling",
     },
     "C17": {
+        "technique": "static analysis (rustc_private MIR facts + casslint rules): provenance slicing of every allocation size, offset and length on the range-read path + guard dominance (start<size, end clamped) + accumulator rules of the read loop",
         "level": "other",
         "explanation": "bounds of the range read decided structurally: provenance of every allocation size on the read "
                        "path (end-start with end clamped to the stored size at every call site), every subtraction "
@@ -33,6 +37,7 @@ PROPS = {
         "not_decided": "byte-exact slice equality over the (L, start, end) cube",
     },
     "C20": {
+        "technique": "static analysis (rustc_private MIR facts + casslint rules): open-mode folding (append-only log), who-may-write confinement of the version counter, provenance of version/checksum/segment of every record (through helpers and closures), prune guarded by bound and by a successful save",
         "level": "other",
         "explanation": "append-only open modes, version-counter confinement, provenance of version/checksum/target "
                        "segment of every record, one write per record, prune guarded by `id < segment_of(saved "
@@ -41,6 +46,7 @@ PROPS = {
                        "independent reader",
     },
     "C16": {
+        "technique": "static analysis (rustc_private MIR facts + casslint rules): panic- and allocation-reachability over the resolved call graph with discharge arguments (checked take, length guards), encoder/decoder layout and tag extraction from MIR of both sides, branch classification of the decoders' error exits",
         "level": "other",
         "explanation": "totality and bounded allocation of the decoders decided by panic/allocation reachability over "
                        "the resolved call graph with generic discharge arguments; encoder/decoder layout, tag and "
@@ -49,6 +55,7 @@ PROPS = {
         "not_decided": "the round-trip value law itself; lossy `len() as u32` casts above 4 GiB are listed as an assumption",
     },
     "C10": {
+        "technique": "static analysis (rustc_private MIR facts + casslint rules): graph-cut rule in the segment reader (checksum-equality edge dominates every accepting return over the same buffer) + error-propagation rules up to the open root + branch classification of 'no more records' exits + panic reachability",
         "level": "other",
         "explanation": "verify-before-accept as a graph cut in the segment reader (checksum equality edge dominates "
                        "every accepting return, over the same buffer), short payload => error-only paths, error "
@@ -56,6 +63,7 @@ PROPS = {
         "not_decided": "'state = longest undamaged prefix' as a value; hash collisions",
     },
     "C14": {
+        "technique": "static analysis (rustc_private MIR facts + casslint rules): error-discipline lint over every effectful Result-returning call site (def-use discard detection), unwrap/expect classification by error type, error-edge typestate of the log writer, must-happened-before for prune/unlink behind the successful step",
         "level": "other",
         "explanation": "error discipline over every effectful Result-returning call site (def-use: a result that is "
                        "only dropped is a discard), unwrap/expect sites classified by error type, append-before-"
@@ -63,6 +71,7 @@ PROPS = {
         "not_decided": "post-fault state as values",
     },
     "C01": {
+        "technique": "static analysis (rustc_private MIR facts + casslint rules): must-happened-before dataflow on every Ok exit of the mutating entry points (Ok-sensitive, interprocedural summaries) + value-flow taint (key/hash/size) + backward provenance of reported values + bounded path enumeration of the apply body for the reported count, over rustc MIR",
         "level": "other",
         "explanation": "refinement wiring decided on all paths: every Ok exit of a mutating entry point is either "
                        "behind the apply step or mutation-free (and reports accordingly), the apply body performs the "
@@ -74,6 +83,7 @@ PROPS = {
                        "C18); aborts (C13)",
     },
     "C02": {
+        "technique": "static analysis (rustc_private MIR facts + casslint rules): must-pass-through / dominance rules on the load and checkpoint paths + provenance slicing (logged bytes, snapshot version, running maximum of replayed versions) + branch classification of the record reader's end-of-log exits, over rustc MIR",
         "level": "other",
         "explanation": "restart wiring decided on all paths: every live index mutation is behind the append of its "
                        "record, logged bytes are the encoding of the applied op, snapshot/version/prune/replay use "
@@ -83,6 +93,7 @@ PROPS = {
                        "boundary, repeated restarts): values, not shape",
     },
     "C03": {
+        "technique": "static analysis (rustc_private MIR facts + casslint rules): write-order protocol as must-happened-before dataflow with Ok-sensitivity and kills (publish -> log -> apply -> unlink; write -> sync -> rename; save -> prune) + open-mode folding + lockset rule for append/apply atomicity, over rustc MIR",
         "level": "other",
         "explanation": "write-order protocol of the process-kill model decided on all paths: must-happened-before "
                        "with Ok-sensitivity and kills for the put/remove order and snapshot-before-prune, in-place "
@@ -91,6 +102,7 @@ PROPS = {
         "not_decided": "that each crash image decodes to the acknowledged history; nested crashes beyond R5",
     },
     "C08": {
+        "technique": "static analysis (rustc_private MIR facts + casslint rules): lockset + guard dominance at every clean-up removal, provenance of removed paths (report lists only), classification of the scan's directory walk, must-pass-through of every report list on the way to Ok",
         "level": "other",
         "explanation": "clean-up half decided on all paths (protocol lock + re-validation guards dominate every "
                        "removal, operands come from the report's own lists); scan shape: list provenance by path "
@@ -100,6 +112,7 @@ PROPS = {
                        "directory contents, i.e. execution)",
     },
     "C04": {
+        "technique": "static analysis (rustc_private MIR facts + casslint rules): lockset analysis (must-held protocol lock at every intent access and blob unlink, single continuous hold apply->delete) + guard/filter dominance + typestate of the intent guard along the publish call chain + container discipline of the intents multiset",
         "level": "other",
         "explanation": "conformance to the intents protocol on all paths: must-held protocol lock at every intent "
                        "access and blob unlink, filter/guard dominance for every unlinked hash, intent-before-"
@@ -109,12 +122,14 @@ PROPS = {
                        "invariant is a paper argument (DESIGN.md C04)",
     },
     "C05": {
+        "technique": "static analysis (rustc_private MIR facts + casslint rules): lockset analysis with caller contexts (read path: blob opened under the index guard; write path: append+apply under both locks) + must-happened-before 'Ok implies applied'",
         "level": "other",
         "explanation": "read-path and write-path locksets on all paths: must-held lock classes (incl. caller "
                        "context) at every blob open, key-map access, append and apply site",
         "not_decided": "the linearizability judgement on returned values",
     },
     "C15": {
+        "technique": "static analysis (rustc_private MIR facts + casslint rules): lock-order graph from a may-held lockset analysis (caller contexts, drop glue, bound callbacks): acyclic, no re-entrant acquisition, no blocking wait, no escaping guard",
         "level": "proof",
         "explanation": "lock-order graph over an over-approximation of all paths (may-held locksets incl. caller "
                        "context, drop glue and bound callbacks) is acyclic without self-edges; no blocking wait "
@@ -123,6 +138,7 @@ PROPS = {
                        "IndexReadGuard while writing (outside the contract)",
     },
     "C19": {
+        "technique": "static analysis (rustc_private MIR facts + casslint rules): must-happened-before SETTINGS_CHECKED at every mutating effect outside the allow-list on the open root, effect-free mismatch edges, version-gate dominance, provenance of the layout flag, may-order settings-after-mkdir",
         "level": "proof",
         "explanation": "validate-before-touch on the open root: must-happened-before SETTINGS_LOADED at every "
                        "mutating effect outside the allow-list, effect-free mismatch edge that cannot be "
@@ -130,6 +146,7 @@ PROPS = {
         "not_decided": "byte-for-byte directory comparison at run time",
     },
     "C11": {
+        "technique": "static analysis (rustc_private MIR facts + casslint rules): must-happened-before FLOCK at every mutating effect site reachable from the open root (transitively), effect-free error edge of the lock attempt, ownership flow of the locked File into the handle",
         "level": "proof",
         "explanation": "lock-before-touch decided on all paths of the open root: must-happened-before FLOCK "
                        "at every mutating effect site (transitively), effect-free error edge, non-blocking lock, "
@@ -137,6 +154,7 @@ PROPS = {
         "not_decided": "flock semantics across threads/processes/kill (trusted)",
     },
     "C13": {
+        "technique": "static analysis (rustc_private MIR facts + casslint rules): effect-confinement analysis: transitive may-effects (fs by path class, locks, containers) of the non-consuming transaction API and of the drop glue, over the resolved call graph; uniqueness of the staging name from the builder chain",
         "level": "other",
         "explanation": "effect confinement: transitive may-effects (fs effects by path class, lock "
                        "acquisitions, container events) of the non-consuming transaction API and of the drop "
@@ -145,6 +163,7 @@ PROPS = {
         "not_decided": "run-time directory listings; exactness of 'only its own intent' is C04-R5",
     },
     "C06": {
+        "technique": "static analysis (rustc_private MIR facts + casslint rules): effect-ownership analysis: every file-system effect site classified by path class (value-flow over MIR) and judged against a closed list; must/may ordering flush->publish; provenance of the published file and its name",
         "level": "other",
         "explanation": "effect ownership over cas/: every fs effect site in the crate is classified by path "
                        "class (value-flow over MIR) and judged against a closed list; flush-before-publish and "
@@ -152,6 +171,7 @@ PROPS = {
         "not_decided": "re-hashing files at run time; BLAKE3 collision resistance; what the filesystem does",
     },
     "C09": {
+        "technique": "static analysis (rustc_private MIR facts + casslint rules): must-happened-before dataflow (Ok-sensitive, with kills, SyncMode::Sync specialisation by edge pruning) over rustc MIR with path classes: sync-before-rename, sync-before-ack, log-before-unlink on all paths",
         "level": "proof",
         "explanation": "all-paths sync-ordering protocol in SyncMode::Sync decided on rustc MIR: must-happened-"
                        "before dataflow with Ok-sensitivity and kills over the resolved call graph",
